@@ -15,12 +15,16 @@ patterns, p = 16…30); everything derived from them is proved.
 set_option linter.unusedVariables false
 namespace DadiVerif.FileFormat
 
-/-- the assumptions on number formatting / parsing -/
-structure FmtContract {F : Type} (fmt : Nat → F → Str) (parse : Str → Option F) (rnd : Nat → F → F) : Prop where
+/-- the part of the assumptions that concerns one trip through the file -/
+structure FmtCore {F : Type} (fmt : Nat → F → Str) (parse : Str → Option F) (rnd : Nat → F → F) : Prop where
   /-- a formatted entry is a non-empty string without whitespace -/
   tok : ∀ p x, Tok (fmt p x)
   /-- reading a formatted entry gives the value rounded to the written precision -/
   parse_fmt : ∀ p x, parse (fmt p x) = some (rnd p x)
+
+/-- the assumptions on number formatting / parsing -/
+structure FmtContract {F : Type} (fmt : Nat → F → Str) (parse : Str → Option F) (rnd : Nat → F → F) : Prop
+    extends FmtCore fmt parse rnd where
   /-- a value that has been through the file once is not changed by going through it again -/
   rnd_idem : ∀ p x, rnd p (rnd p x) = rnd p x
   /-- 17 significant digits identify a double -/
@@ -28,17 +32,24 @@ structure FmtContract {F : Type} (fmt : Nat → F → Str) (parse : Str → Opti
 
 variable {F : Type} {fmt : Nat → F → Str} {parse : Str → Option F} {rnd : Nat → F → F}
 
-theorem FmtContract.toks (fc : FmtContract fmt parse rnd) (p : Nat) (vals : List F) : ∀ t ∈ vals.map (fmt p), Tok t := by
+theorem FmtCore.toks (fc : FmtCore fmt parse rnd) (p : Nat) (vals : List F) : ∀ t ∈ vals.map (fmt p), Tok t := by
   intro t ht
   obtain ⟨x, _, rfl⟩ := List.mem_map.mp ht
   exact fc.tok p x
 
 /-- parsing the written row gives every value rounded to the written precision -/
-theorem FmtContract.parse_row (fc : FmtContract fmt parse rnd) (p : Nat) (vals : List F) :
+theorem FmtCore.parse_row (fc : FmtCore fmt parse rnd) (p : Nat) (vals : List F) :
     (vals.map (fmt p)).mapM parse = some (vals.map (rnd p)) := by
   induction vals with
   | nil => rfl
   | cons x xs ih => simp [List.mapM_cons, fc.parse_fmt, ih]
+
+theorem FmtContract.toks (fc : FmtContract fmt parse rnd) (p : Nat) (vals : List F) : ∀ t ∈ vals.map (fmt p), Tok t :=
+  fc.toFmtCore.toks p vals
+
+/-- parsing the written row gives every value rounded to the written precision -/
+theorem FmtContract.parse_row (fc : FmtContract fmt parse rnd) (p : Nat) (vals : List F) :
+    (vals.map (fmt p)).mapM parse = some (vals.map (rnd p)) := fc.toFmtCore.parse_row p vals
 
 /-- writing the values read back and reading again changes nothing -/
 theorem FmtContract.stable_row (fc : FmtContract fmt parse rnd) (p : Nat) (vals : List F) :
